@@ -111,7 +111,19 @@ Definition ext_quality (j : json) (tid : Z) (ic : bool) : option (nat * list nat
                                   | None => false end in
                 if in_problem then
                   match get "course_instructor" rt with
-                  | Some (JInt i) => if (i =? cid)%Z then (S (fst acc), snd acc)
+                  | Some (JInt i) => if (i =? cid)%Z
+                                     then (* an instructor counts (with penalty 0) only if he has a choice among the courses of the problem --
+                                             a participant WITH CHOICES, exactly as for optimised participants (instructor-only ones are not rated) *)
+                                          (if match get "choices" rt with
+                                              | Some (JArr l) => existsb (fun x => match x with
+                                                                                   | JInt c => match get (zstr c) courses with
+                                                                                               | Some cj => match get "segments" cj with
+                                                                                                            | Some sg => match get (zstr tid) sg with Some (JBool b) => b || negb ic | _ => false end
+                                                                                                            | None => false end
+                                                                                               | None => false end
+                                                                                   | _ => false end) l
+                                              | _ => false end
+                                           then (S (fst acc), snd acc) else acc)
                                      else (fst acc, (snd acc ++ [match get "choices" rt with Some (JArr l) => match position_of cid l 0 with Some p => p | None => ncho end | _ => ncho end])%list)
                   | _ => (fst acc, (snd acc ++ [match get "choices" rt with Some (JArr l) => match position_of cid l 0 with Some p => p | None => ncho end | _ => ncho end])%list)
                   end
